@@ -158,9 +158,11 @@ def encoded_functions(checks):
         f = c.get("func")
         if not f:
             continue
-        if "verif_kani" in f or "verif_hook" in f or f.startswith("kani::") or f.startswith("__"):
+        if "verif_kani" in f or "verif_hook" in f or f.startswith("kani::") or f.startswith("__") or "proofs::" in f:
             continue
-        if c["loc"].startswith("src/") or "/repo/" in c["loc"] or c["loc"].startswith("../repo/"):
+        if re.match(r"^<?(alloc|core|std|bytes|rand|rand_core|postcard|bincode|serde)::", f) or " as core::" in f or " as alloc::" in f:
+            continue
+        if (c["loc"].startswith("src/") or "/repo/" in c["loc"] or "repo/src/" in c["loc"]) and ":0:0" not in c["loc"]:
             fns.add(re.sub(r"::<.*$", "", f))
     return sorted(fns)
 
@@ -171,8 +173,8 @@ def summarize(r):
     covers = [c for c in checks if ".cover." in c["name"]]
     return {
         "harness": r["name"], "engine": r["engine"], "status": r["status"], "detail": r["detail"],
-        "bounds": r["spec"].get("bounds", ""),
-        "entry": r["spec"].get("entry", ""),
+        "bounds": r["spec"].get("bounds", "") or "see coverage.bounds",
+        "entry": r["spec"].get("entry", "") or table.ENTRY.get(r["name"].split("_")[0], ""),
         "functions_with_checks": encoded_functions(checks)[:60],
         "queries": len(checks),
         "queries_success": sum(1 for c in checks if c["status"] == "SUCCESS"),
